@@ -1,6 +1,6 @@
 (** C07 — dependency cycles are detected, exactly.  gonum's elementary-cycle enumeration is modelled by [all_cycles]
     (validated against the real library by the correspondence runs). *)
-From GV Require Import Base.Str Base.Gerr Model.Compile Model.OutVal Proofs.GraphProofs Proofs.DepGraphProofs.
+From GV Require Import Base.Str Base.Gerr Model.Compile Model.OutVal Proofs.GraphProofs Proofs.DepGraphProofs Runtime.RT Proofs.RTProofs.
 
 (** accepted by the cycle rule iff neither the service dependency relation nor the parameter reference relation has a cycle *)
 Theorem C07_accept_iff_acyclic :
@@ -57,3 +57,13 @@ Example C07_ex_cycle :
   let g := {| g_nodes := [Some (s "service(a)"); Some (s "service(b)")]; g_edges := [(0, 1); (1, 0)] |} in
   all_cycles g = [[0; 1; 0]].
 Proof. vm_compute. reflexivity. Qed.
+
+(** why acceptance must imply acyclicity: at run time parameters on a reference cycle can never be evaluated, whatever the fuel
+    of the model - they always fail and are never cached (Proofs/RTProofs.v) *)
+Theorem C07_cyclic_params_never_evaluate : forall (f : nat) (st : RT.rt) (W : list str) (id : str) (st' : RT.rt) (r : RT.result RT.value),
+  (forall w, In w W -> exists toks y, lookup w (RT.rt_params st) = Some (RT.DPattern toks) /\ In (RT.KRef y) toks /\ In y W) ->
+  (forall w, In w W -> lookup w (RT.rt_pcache st) = None) ->
+  In id W -> RT.get_param f st id = (st', r) ->
+  RTProofs.is_err r /\ (forall w, In w W -> lookup w (RT.rt_pcache st') = None).
+Proof. exact RTProofs.param_cycle_fails. Qed.
+Print Assumptions C07_cyclic_params_never_evaluate.
